@@ -8,21 +8,22 @@
 (*      reserved = producer writer-position delta of the call (-1: unknown, first call of a fresh thread)       *)
 (*      tp       = the three passes of the real codec run on the same arguments: bytes the Size pass asks for,   *)
 (*                 bytes Encode wrote, bytes Decode consumed (argument part only)                               *)
-(*      got      = log_message the sink received (hex); exp = call-site fmtquill::format text after the         *)
-(*                 configured sanitiser, one per admissible iteration order of unordered containers; raw = same  *)
+(*      got      = log_message the sink received (hex); exp = THE call-site fmtquill::format text after the      *)
+(*                 configured sanitiser (unordered containers in the source's own iteration order); raw = same   *)
 (*                 before sanitisation; the arguments were mutated/destroyed after the call when the case says so *)
+(*                 ("alt", the texts for other element orders, is only used to NAME a rejection, never to accept) *)
 (*  {"op":"poll", "t", "consumed", "nodechg"}   consumer reader-position delta of one drain of thread t's queue  *)
 EXTENDS Naturals, Integers, Sequences, FiniteSets, TLC, Json, IOUtils
 TraceLog == ndJsonDeserialize(IOEnv.TRACE)
 VARIABLES l,        \* next line
           pend,     \* [thread -> bytes reserved and not yet consumed]; -1 = unknown
-          ok,       \* contract (layer A): decides violations
+          rej,      \* contract (layer A): lines the contract rejects, in order (decides violations)
           faithful  \* layer I: the byte counts / cache lengths Codec.tla predicts; a mismatch is drift, not a verdict
-vars == <<l, pend, ok, faithful>>
+vars == <<l, pend, rej, faithful>>
 Tids == 0..255
 Range(s) == {s[i] : i \in 1..Len(s)}
 
-Init == l = 1 /\ pend = [t \in Tids |-> 0] /\ ok = TRUE /\ faithful = TRUE
+Init == l = 1 /\ pend = [t \in Tids |-> 0] /\ rej = <<>> /\ faithful = TRUE
 
 \* the message equals the call-site formatting (after the sanitiser; the sanitiser is documented to apply only
 \* when an argument is a string, so without one the unsanitised text is accepted as well)
@@ -37,18 +38,21 @@ Next ==
   /\ l <= Len(TraceLog)
   /\ l' = l + 1
   /\ LET e == TraceLog[l] IN
-     CASE e.op = "reset" -> pend' = [t \in Tids |-> 0] /\ UNCHANGED <<ok, faithful>>
+     CASE e.op = "reset" -> pend' = [t \in Tids |-> 0] /\ UNCHANGED <<rej, faithful>>
        [] e.op = "stmt" ->
-            /\ ok' = (ok /\ TextOK(e) /\ PassesOK(e) /\ ReservedOK(e))
+            /\ rej' = IF TextOK(e) /\ PassesOK(e) /\ ReservedOK(e) THEN rej ELSE Append(rej, l)
             /\ faithful' = (faithful /\ PredOK(e))
             /\ pend' = [pend EXCEPT ![e.t] = IF @ < 0 \/ e.reserved < 0 THEN -1 ELSE @ + e.reserved]
        [] e.op = "poll" ->
-            /\ ok' = (ok /\ (pend[e.t] < 0 \/ e.nodechg \/ e.consumed = pend[e.t]))
+            /\ rej' = IF pend[e.t] < 0 \/ e.nodechg \/ e.consumed = pend[e.t] THEN rej ELSE Append(rej, l)
             /\ pend' = [pend EXCEPT ![e.t] = 0]
             /\ UNCHANGED faithful
 
+  \* after the last line: report every rejected line (TraceCodecAll.cfg: one pass over thousands of executions)
+  /\ (l' = Len(TraceLog) + 1) => PrintT("REJ " \o ToJson(rej'))
+
 Spec == Init /\ [][Next]_vars
 \* violated at the first step the contract rejects (l - 1 = its line)
-Conforms == ok
+Conforms == rej = <<>>
 Faithful == faithful
 =============================================================================
